@@ -45,9 +45,9 @@ void log_req(const char *type, const std::string &bank) { std::cout << "REQ " <<
 void print_double(std::ostream &o, double x) {
   if (x != x)
     o << "NaN";
-  else if (x > 1.7e308)
+  else if (x > 1.7976931348623157e308)
     o << "Infinity";
-  else if (x < -1.7e308)
+  else if (x < -1.7976931348623157e308)
     o << "-Infinity";
   else {
     char b[64];
